@@ -125,7 +125,12 @@ fn diff_results(a: &ProgResult, b: &ProgResult, with_time: bool) -> Option<Strin
 }
 
 fn gen_prog(opts: &GenOpts, tid: usize) -> Prog {
-    let prob = with_sim(|s| gen_problem(&mut s.cs, opts));
+    let mut prob = with_sim(|s| gen_problem(&mut s.cs, opts));
+    // some right-hand sides in the range of the bounds the setter threads use, so that
+    // hidden module-level state about the bound would change what construction does
+    if chance("plant_inf", 1, 3) {
+        crate::props::c09::plant(&mut prob);
+    }
     let verbose = chance("verbose", 1, 3);
     let mut settings = with_sim(|s| gen_settings(&mut s.cs, verbose));
     // updates are part of the programs: keep presolve reductions out of the way
@@ -224,10 +229,11 @@ pub fn run(tier: Tier) -> RunOutcome {
     let nsetters = choose("nsetters", 2) as usize;
     let nthreads = nsolvers + nsetters;
     let progs: Vec<Prog> = (0..nsolvers).map(|t| gen_prog(&opts, t)).collect();
+    // a NaN entry stands for default_infinity()
     let setter_ops: Vec<Vec<f64>> = (0..nsetters)
         .map(|_| {
-            (0..1 + choose("nsets", 3))
-                .map(|_| [1e20, 1e3, 1e6, 1e10][choose("bound", 4) as usize])
+            (0..1 + choose("nsets", 4))
+                .map(|_| [1e20, 1e3, 1e6, 1e10, f64::NAN][choose("bound", 5) as usize])
                 .collect()
         })
         .collect();
@@ -261,7 +267,11 @@ pub fn run(tier: Tier) -> RunOutcome {
     for ops in setter_ops.iter().cloned() {
         bodies.push(Box::new(move || {
             for v in ops {
-                sim_set_infinity(v);
+                if v.is_nan() {
+                    sim_default_infinity();
+                } else {
+                    sim_set_infinity(v);
+                }
             }
             None
         }));
@@ -345,10 +355,17 @@ fn run_resolve(opts: &GenOpts) -> RunOutcome {
         probe("c05_panic_skipped");
         return out;
     };
+    if first.status == clarabel::solver::SolverStatus::NumericalError {
+        // the arithmetic broke down; what the work buffers hold afterwards (and hence
+        // the garbage iterate of the next attempt) is specified by no property
+        probe("c05_numerical_error_not_compared");
+        out.summary = format!("re-solve: {} -> NumericalError (not compared)", prob.describe());
+        return out;
+    }
     // second solve on the same object
     match sv_solve(0, &mut fresh) {
         Ok(second) => {
-            if let Some(d) = second.diff_bitwise(&first) {
+            if let Some(d) = second.diff_numeric(&first) {
                 out.violations.push(Violation::new(
                     "C05.resolve_differs",
                     format!("second solve() of the same solver differs from the first: {} [{}]", d, prob.describe()),
@@ -384,7 +401,7 @@ fn run_resolve(opts: &GenOpts) -> RunOutcome {
     s2.settings.max_iter = settings.max_iter;
     match sv_solve(1, &mut s2) {
         Ok(after) => {
-            if let Some(d) = after.diff_bitwise(&first) {
+            if let Some(d) = after.diff_numeric(&first) {
                 out.violations.push(Violation::new(
                     "C05.solve_after_interruption_differs",
                     format!(
